@@ -713,6 +713,17 @@ def emit_cfg(modes, maxw, maxt, maxc, edits, medits, minvals, kindsel, allperms,
   NoNlBeforeCmt = FALSE
   FmtNoTrailSep = FALSE
 SPECIFICATION Spec
+INVARIANT LayoutValid
+INVARIANT ReaderAgrees
+INVARIANT ReadTotal
+INVARIANT Refines
+INVARIANT RoundTrip
+INVARIANT TailOK
+INVARIANT EditResult
+INVARIANT StillValid
+INVARIANT WriteBack
+INVARIANT RefuseOnlyWhen
+INVARIANT ShapeOK
 CHECK_DEADLOCK FALSE
 """ % (", ".join('"%s"' % m for m in modes), maxw, maxt, maxc, "TRUE" if dups else "FALSE", medits,
        "TRUE" if edits else "FALSE", kindsel, minvals, "TRUE" if allperms else "FALSE", slice_k, slice_r)
@@ -1161,7 +1172,7 @@ def run(ctx):
     quick = ctx.tier == "quick"
     rng = ctx.rng
     ctx.assumptions += [
-        "layout tokens of C11 (word, comma, blanks, newline, continuation blank, comment line) plus numbered comment lines; words with an even number end in '>'; design bounds quick: <=3 words/7 tokens/1 comment line x 1 call; thorough: <=3 words/8 tokens/2 comment lines x every renaming x 7 key/reverse pairs, 2 calls on <=6 tokens, 3 calls on <=2 words/5 tokens, comma and uploaders layouts <=10 tokens for the hidden separator; replayed cases: slices of these chosen by the seed",
+        "layout tokens of C11 (word, comma, blanks, newline, continuation blank, comment line) plus numbered comment lines; words with an even number end in '>'; design bounds quick: <=3 words/6 tokens/1 comment line x 1 call (the emission runs check the same invariants on the emitted slices of the layouts <=7 tokens); thorough: <=3 words/8 tokens/2 comment lines x every renaming x 7 key/reverse pairs, 2 calls on <=6 tokens, 3 calls on <=2 words/5 tokens, comma and uploaders layouts <=10 tokens for the hidden separator; replayed cases: slices of these chosen by the seed",
         "text order = order of the word numbers: the concretization hands out prefix-free stems in sorted order; values that share their first word are identical (KeyDomain), otherwise the order is not judged",
         "order among items with equal keys, comment attachment after a remove, ValueReferences across a sort, empty lists, editing an uploaders list with an item without '>', the value of a last uploaders item that ends in a non-separating comma: unspecified (executed, document level only)",
         "the written text is lexed back into layout tokens by the inverse of the concretization (trusted); which tokens form values / which comment lines belong to a value is decided by TLC (reference reader)",
